@@ -48,6 +48,9 @@ static J gen_area_lattice(Chooser &ch)
   for (auto &p : v) jv.push(jp(static_cast<double>(p.x), static_cast<double>(p.y)));
   c["vertices"] = jv;
   c["L"] = L;
+  // 20%: the same polygon written with a vertex listed twice in a row - closed like a GIS ring (first vertex repeated at the end),
+  // or any vertex doubled; the footprint is the same set of points
+  c["repeat"] = ch.chance(20) ? (ch.flip() ? -2 : static_cast<int>(ch.index(v.size()))) : -1;
   if (sph)
     {
       // lattice step in degrees; origin chosen so that a forced share of footprints straddles +-180 or is written beyond it
@@ -98,6 +101,9 @@ static Result check_area_lattice(const J &c)
   feat["name"] = "f";
   J coords = J::arr();
   for (auto &p : v) coords.push(jp(ox + step * 0.5 * static_cast<double>(p.x), oy + step * 0.5 * static_cast<double>(p.y)));
+  const int repeat = c.has("repeat") ? static_cast<int>(c.at("repeat").num()) : -1;
+  if (repeat == -2) coords.push(coords[0]);
+  else if (repeat >= 0 && static_cast<size_t>(repeat) < coords.size()) coords.a.insert(coords.a.begin() + repeat, coords[static_cast<size_t>(repeat)]);
   feat["coordinates"] = coords;
   if (dmin != 0 || c.at("explicit_dmin").boolean()) feat["min depth"] = dmin;
   feat["max depth"] = dmax;
@@ -109,6 +115,7 @@ static Result check_area_lattice(const J &c)
   r.classes.push_back(c.at("type").str());
   r.classes.push_back(sph ? "spherical" : "cartesian");
   if (sph && (ox + step * L > 180 || ox < -180)) r.classes.push_back("footprint written across/beyond +-180");
+  if (repeat != -1) r.classes.push_back(repeat == -2 ? "ring closed by repeating the first vertex" : "a vertex listed twice in a row");
   const std::vector<double> depths = {dmin, dmax, 0.5 * (dmin + dmax), dmin - 1.0, dmax + 1.0, std::nextafter(dmax, 0.0), std::nextafter(dmax, 1e300)};
   for (int x = -3; x <= 2 * L + 3; ++x)
     for (int y = -3; y <= 2 * L + 3; ++y)
